@@ -23,6 +23,22 @@ LEAN_MODULES = ["KaVerif.Props.Pipeline"]
 THEOREMS = ["KaVerif.PIPE_dispatch_table", "KaVerif.PIPE_arith", "KaVerif.PIPE_arith_or_refuses", "KaVerif.PIPE_arith_exact",
             "KaVerif.PIPE_text_arith", "KaVerif.PIPE_text_arith_min_full", "KaVerif.PIPE_text_arith_lexed",
             "KaVerif.PIPE_statements", "KaVerif.PIPE_session", "KaVerif.PIPE_qty_ops", "KaVerif.PIPE_array_sum", "KaVerif.PIPE_interval"]
+LEAN_MODULES2 = ["KaVerif.Props.Pipeline2"]
+THEOREMS2 = {
+    "C02": ["KaVerif.PIPE_tokens_of_tree", "KaVerif.PIPE_text_of_tree", "KaVerif.PIPE_stages", "KaVerif.PIPE_parse_marker_inside"],
+    "C03": ["KaVerif.PIPE_qty_expr", "KaVerif.PIPE_qty_dim"],
+    "C04": ["KaVerif.PIPE_qty_expr", "KaVerif.PIPE_unit_lookup"],
+    "C05": ["KaVerif.PIPE_comb", "KaVerif.PIPE_comb_program", "KaVerif.PIPE_comb_exact"],
+    "C06": ["KaVerif.PIPE_stages", "KaVerif.PIPE_parse_marker_inside", "KaVerif.PIPE_elementary_domain"],
+    "C09": ["KaVerif.PIPE_compare", "KaVerif.PIPE_compare_node", "KaVerif.PIPE_compare_semantics",
+            "KaVerif.PIPE_compare_chain_rejected"],
+    "C11": ["KaVerif.PIPE_stages", "KaVerif.PIPE_text_of_tree"],
+    "C12": ["KaVerif.PIPE_array_aggregates", "KaVerif.PIPE_range"],
+    "C13": ["KaVerif.PIPE_unit_lookup", "KaVerif.PIPE_qty_expr"],
+    "C15": ["KaVerif.PIPE_display", "KaVerif.PIPE_display_int"],
+    "C16": ["KaVerif.PIPE_elementary", "KaVerif.PIPE_elementary_call", "KaVerif.PIPE_elementary_domain",
+            "KaVerif.PIPE_elementary_finite"],
+}
 RULE = ("whole programs (1-4 statements, depth <= 4) mixing arithmetic on ints / fractions / floats / scientific and based literals, "
         "variables and assignments across ';', factorials and binomials, quantities with units / prefixes / compound signatures / "
         "temperatures and 'to', intervals and their functions, arrays / ranges / comprehensions / aggregates, comparisons incl. chained "
